@@ -224,7 +224,7 @@ async fn write(c: &Case, store: &Arc<InMemory>) -> Result<(), String> {
 
 /// Read back in a fresh session through the read-options API (explicit file
 /// schema for the formats that carry none, inferred for Parquet / Arrow).
-async fn read_back(c: &Case, store: &Arc<InMemory>, via_ddl: bool) -> Result<Vec<Row>, String> {
+async fn read_back(c: &Case, store: &Arc<InMemory>, via_ddl: bool, arrow_explicit_schema: bool) -> Result<Vec<Row>, String> {
     let ctx = new_ctx(store, &Mode::Dir);
     let pc = part_cols(&c.mode);
     let sch = src_schema();
@@ -248,7 +248,13 @@ async fn read_back(c: &Case, store: &Arc<InMemory>, via_ddl: bool) -> Result<Vec
                 ctx.register_csv("r", &loc, o).await
             }
             Fmt::Json => ctx.register_json("r", &loc, JsonReadOptions::default().schema(&file_schema).table_partition_cols(pcols)).await,
-            Fmt::Arrow => ctx.register_arrow("r", &loc, ArrowReadOptions::default().table_partition_cols(pcols)).await,
+            Fmt::Arrow => {
+                let mut o = ArrowReadOptions::default().table_partition_cols(pcols);
+                if arrow_explicit_schema {
+                    o = o.schema(&file_schema);
+                }
+                ctx.register_arrow("r", &loc, o).await
+            }
         }
         .map_err(|e| format!("register read-back table at {loc}: {e}"))?;
         "r"
@@ -269,19 +275,26 @@ async fn read_back(c: &Case, store: &Arc<InMemory>, via_ddl: bool) -> Result<Vec
             n.as_any().downcast_ref::<Int64Array>().unwrap(),
         );
         for r in 0..b.num_rows() {
-            if p.is_null(r) || n.is_null(r) {
+            let p_null_ok = matches!(c.fmt, Fmt::Csv { .. }) && !pc.contains(&"p".to_string());
+            if (p.is_null(r) && !p_null_ok) || n.is_null(r) {
                 return Err(format!("read back: NULL in column p or n (row {r})"));
             }
             out.push(Row {
                 a: if a.is_null(r) { None } else { Some(a.value(r)) },
                 s: if s.is_null(r) { None } else { Some(s.value(r).to_string()) },
-                p: p.value(r).to_string(),
+                // CSV: a NULL string is the format's encoding of ''
+                p: if p.is_null(r) { String::new() } else { p.value(r).to_string() },
                 n: n.value(r),
             });
         }
     }
     Ok(out)
 }
+
+/// marks the root-cause class "Arrow files written by DataFusion cannot have
+/// their schema inferred when they come from an object store as a stream"
+const ARROW_INFER_MARK: &str = "[arrow-schema-inference]";
+const ROOT_CAUSE_ARROW: &str = "C25:ArrowFormat::infer_schema:stream-inference-fails-on-files-written-by-ArrowFileSink";
 
 fn canon(rows: &[Row], fmt: Fmt) -> Vec<Row> {
     let mut v: Vec<Row> = rows
@@ -310,15 +323,33 @@ fn run_case(c: &Case) -> Result<usize, String> {
         };
         let listing: Vec<String> = files.iter().map(|m| m.location.to_string()).collect();
         let want = canon(&c.rows, c.fmt);
-        let mut routes = vec![false];
+        // (via DDL, explicit Arrow schema)
+        let mut routes = vec![(false, c.fmt == Fmt::Arrow)];
         if c.route == Route::Insert {
-            routes.push(true);
+            routes.push((true, false));
+            if c.fmt == Fmt::Arrow {
+                // the table's DDL (VARCHAR -> Utf8View) is the schema the files were
+                // written in; an explicit Utf8 schema would not describe them
+                routes.remove(0);
+            }
         }
-        for via_ddl in routes {
-            let got = read_back(c, &store, via_ddl).await.map_err(|e| format!("{e}; files written: {listing:?}"))?;
+        for (via_ddl, explicit) in routes {
+            let got = read_back(c, &store, via_ddl, explicit).await.map_err(|e| format!("{e}; files written: {listing:?}"))?;
             let got = canon(&got, c.fmt);
             if got != want {
                 return Err(format!("read back {got:?}, written {want:?}; files written: {listing:?}"));
+            }
+        }
+        if c.fmt == Fmt::Arrow {
+            // the data round-trips with an explicit schema; now let the reader infer it
+            match read_back(c, &store, false, false).await {
+                Ok(got) => {
+                    let got = canon(&got, c.fmt);
+                    if got != want {
+                        return Err(format!("read back (inferred schema) {got:?}, written {want:?}; files written: {listing:?}"));
+                    }
+                }
+                Err(e) => return Err(format!("{ARROW_INFER_MARK}: the files read back correctly with an explicit schema, but with schema inference: {e}; files written: {listing:?}")),
             }
         }
         Ok(files.len())
@@ -388,6 +419,7 @@ fn explore(ctx: &Ctx) {
             }
         }
     }
+    let arrow_class: std::sync::Mutex<Vec<(String, String)>> = std::sync::Mutex::new(vec![]);
     cases.par_iter().for_each(|c| {
         if ctx.should_stop() {
             return;
@@ -410,10 +442,21 @@ fn explore(ctx: &Ctx) {
             }
             Err(what) => {
                 let j = serde_json::to_value(c).unwrap();
-                ctx.violation(format!("{j}"), what, j);
+                if what.starts_with(ARROW_INFER_MARK) {
+                    ctx.count("violations_of_class_arrow_schema_inference", 1);
+                    arrow_class.lock().unwrap().push((j.to_string(), what));
+                } else {
+                    ctx.violation(format!("{j}"), what, j);
+                }
             }
         }
     });
+    // one root cause, reported once by its smallest member under a stable key
+    let mut v = arrow_class.into_inner().unwrap();
+    v.sort_by(|a, b| (a.0.len(), &a.0).cmp(&(b.0.len(), &b.0)));
+    if let Some((j, what)) = v.first() {
+        ctx.violation(ROOT_CAUSE_ARROW, what.clone(), serde_json::from_str(j).unwrap());
+    }
 }
 
 fn replay(v: &Json) -> Result<(), String> {
